@@ -216,6 +216,29 @@ func (e *PSEnv) assume(cond ssa.Value, val bool) bool {
 	if k, ok := c.(*ssa.Const); ok && k.Value != nil {
 		return (k.Value.String() == "true") == val
 	}
+	// comparisons of integer constants (loop counters of `for range N`) are decided outright
+	if op, x, y, isCmp := Cmp(c); isCmp {
+		if a, okA := e.intValue(x, 0); okA {
+			if b, okB := e.intValue(y, 0); okB {
+				var res bool
+				switch op {
+				case token.EQL:
+					res = a == b
+				case token.NEQ:
+					res = a != b
+				case token.LSS:
+					res = a < b
+				case token.LEQ:
+					res = a <= b
+				case token.GTR:
+					res = a > b
+				case token.GEQ:
+					res = a >= b
+				}
+				return res == val
+			}
+		}
+	}
 	if op, x, y, isCmp := Cmp(c); isCmp && (op == token.EQL || op == token.NEQ) {
 		var other ssa.Value
 		if IsNilConst(e.Resolve(x)) {
